@@ -42,7 +42,14 @@ def gen_case(rng, i, tier):
             if not isinstance(ch, dict):
                 ch = {'added': 1}
             ch.pop('$match', None)
-            if rng.random() < 0.3:
+            if rng.random() < 0.25:
+                # a document-level $match patch that brings the first directive into a document
+                ch = {'$match': {'name': 'd%d' % k}, 'viamatch': {'$merge': 't.z', 'mine': 1}}
+                labels.add('hist:doc-$match-patch')
+            elif rng.random() < 0.08:
+                ch = {'$match': None, 'name': 'appended', 't': {'z': {'w': 1}}, 'h': {'$merge': 't.z', 'own': 1}}
+                labels.add('hist:doc-$match-null')
+            if rng.random() < 0.3 and '$match' not in ch:
                 ch = {'t': {'z': {'w': False}}} if rng.random() < 0.5 else {'t': {'x': 'changed'}}
             hist.append({'call': 'merge', 'id': 'c%d' % len(hist), 'data': ch, 'parents': ['d%d' % k]})
             labels.add('hist:layer-after')
